@@ -1,3 +1,4 @@
+import errno
 import os
 import shutil
 import stat
@@ -191,7 +192,12 @@ class RealAtomicWrite(AtomicWrite):
         file_handle = self.open_for_write_in_exclusive_and_create_mode(path)
         try:
             try:
-                os.write(file_handle, content)
+                # a write may store only a part of the data (and say so)
+                while content:
+                    written = os.write(file_handle, content)
+                    if written <= 0:
+                        raise IOError(errno.ENOSPC, os.strerror(errno.ENOSPC))
+                    content = content[written:]
             finally:
                 os.close(file_handle)
         except (IOError, OSError):
